@@ -146,11 +146,18 @@ pub fn jobs_for(prop: &str) -> Vec<Job> {
             let mut v = seq_http(Focus::General, 1);
             v.push(twin(TwinMode::HttpLib, 3000, 150_000));
             v.extend(wire_all());
+            // a handler must not answer 5xx where the library outcome is a protocol outcome, also under overlap
+            v.extend(conc_all().into_iter().filter(|j| j.name.contains("http")));
             v
         }
         "C20" => {
             let mut v = seq_http(Focus::General, 1);
             v.extend(wire_all());
+            // the 500s that only fault injection produces carry the header too
+            v.extend(fault_all().into_iter().filter(|j| j.name == "fault-storage-http").map(|mut j| {
+                j.quick = 96;
+                j
+            }));
             v
         }
         "C13" => vec![twin(TwinMode::Backends, 6000, 120_000)],
